@@ -181,7 +181,7 @@ class AccfgGen:
                     node["stale_yield"] = r.randint(1, 2)  # the last setups of the body were inserted after the threading: unlinked, not yielded
                 if p.get("head_launch") and r.random() < p["head_launch"]:
                     # the body first launches the configuration it was entered with (software-pipelined form), possibly guarded
-                    node["head_launch"] = r.choice([True, True, "if"])
+                    node["head_launch"] = r.choice([True, "if"])
             elif p.get("while_loops") and not node["carry"] and r.random() < p["while_loops"]:
                 node["as_while"] = True  # the same counted loop written as scf.while (a region op state tracing does not know)
             for c in node["carry"]:
